@@ -57,6 +57,9 @@ fn versions() -> Vec<Vec<u8>> {
     v.push(cur.clone());
     cur.extend([0xC0u8, 0xC1, 0xC2, 0xC3, 0xC4, 0xC5, 0xC6, 0xC7]);
     v.push(cur.clone());
+    // a second growing commit, AFTER the alterations: the new mapping must carry the altered bytes
+    cur.extend((0..4000usize).map(|i| (i % 239) as u8));
+    v.push(cur.clone());
     v
 }
 
@@ -143,6 +146,9 @@ pub fn run(park_index: usize, mode: &str) {
             if failed.is_ok() { out.lock().unwrap().push("alter-did-not-fail".into()); }
             boundary("alter-failed", &reader2);
             for b in [0xC0u8, 0xC1, 0xC2, 0xC3, 0xC4, 0xC5, 0xC6, 0xC7] { ops.push(b); }
+            ops.commit().unwrap();
+            boundary("commit", &reader2);
+            for i in 0..4000usize { ops.push((i % 239) as u8); }
             ops.commit().unwrap();
             boundary("commit", &reader2);
             drop(reader2);
